@@ -101,6 +101,15 @@ def run_spec(spec, knobs, choices=None, poll=True, drain_virtual=40.0):
                                       poll_nodes(ctx, top)))
                 loop.on_quiescent = on_quiescent
             run.t_begin = loop._now
+            noise = None
+            if knobs.get("noise"):
+                # an unrelated application task ticking on the same grid: its
+                # timers tie with the jobs' and the scheduler's own timers
+                async def ticker(period):
+                    while True:
+                        await asyncio.sleep(period)
+                noise = loop.create_task(ticker(knobs["noise"]))
+                ctx.tasks.remove(noise)
             try:
                 if knobs["entry"] == "run":
                     run.value = top.run()
@@ -121,6 +130,8 @@ def run_spec(spec, knobs, choices=None, poll=True, drain_virtual=40.0):
                 run.outcome, run.value = 'exc', exc
             run.t_end = loop._now
             loop.on_quiescent = None
+            if noise is not None:
+                noise.cancel()
             ctx.log('mark', 'top', 'returned')
             run.seq_returned = ctx.seq
             run.pending_at_return = [t for t in ctx.tasks if not t.done()]
